@@ -575,6 +575,9 @@ impl Compiler {
 
                 if self.last_instruction_is(OpCode::Pop) {
                     self.remove_last_instruction();
+                } else if !consequence.is_empty() {
+                    // the last statement of the block left no value (e.g. a declaration): the block's value is NULL
+                    self.emit_opcode(OpCode::Null);
                 }
 
                 let pos_jump = self.instructions.len();
@@ -590,6 +593,8 @@ impl Compiler {
                     self.compile_block_statement(alternative)?;
                     if self.last_instruction_is(OpCode::Pop) {
                         self.remove_last_instruction();
+                    } else if !alternative.is_empty() {
+                        self.emit_opcode(OpCode::Null);
                     }
                 } else {
                     self.emit_opcode(OpCode::Null);
